@@ -3,6 +3,7 @@
   (model: GoHeader.Sync.Subjective) under EVERY interleaving of setters (gossip handler, Head() callers) with the sync loop.
 -/
 import GoHeader.Sync.Subjective
+import GoHeader.Sync.SyncStore
 namespace GoHeader.C19Subjective
 open GoHeader.Subjective
 
@@ -124,5 +125,45 @@ theorem c19_subjective_head_regresses_before_repair :
 /-- … and with it the same schedule is monotone and nothing stale stays pending -/
 theorem c19_subjective_head_f40_repaired :
     trace true 20 2 f40 = [20, 20, 20, 24, 24, 24, 24, 24] ∧ (run true 20 2 (f40 ++ [.l])).pend = [] := by decide
+
+/-! ### the cached store head (F43) -/
+open GoHeader.SyncStore in
+/-- after the repair NO step of any actor lowers the cached head once it is set - under ALL interleavings of any number of
+    Head() callers with the appenders -/
+theorem c19_cached_head_never_decreases (s : SyncStore.St) (ev : SyncStore.Ev) (c : Nat) (h : s.cache = some c) :
+    ∃ c', (SyncStore.step true s ev).cache = some c' ∧ c ≤ c' := by
+  cases ev with
+  | append => exact ⟨c + 1, by simp [SyncStore.step, stepAppend, h], Nat.le_succ c⟩
+  | head i =>
+    show ∃ c', (stepHead true s i).cache = some c' ∧ c ≤ c'
+    unfold stepHead
+    split
+    · exact ⟨c, h, Nat.le_refl c⟩
+    · simp only [h]; exact ⟨c, rfl, Nat.le_refl c⟩
+    · simp only [h]; exact ⟨c, rfl, Nat.le_refl c⟩
+
+open GoHeader.SyncStore in
+/-- … and a Head() call that starts when the cache is set returns the cached value: so a call that starts after another
+    one returned `c` never returns less -/
+theorem c19_head_after_cached_returns_cache (s : SyncStore.St) (i : Nat) (c : Nat) (h : s.cache = some c)
+    (hi : s.rs[i]? = some .idle) : (stepHead true s i).results = s.results ++ [c] := by
+  simp [stepHead, hi, h]
+
+/-- lifted to every schedule: whatever happened before, one more step never lowers a cached head -/
+theorem c19_cached_head_monotone_run (store n : Nat) (evs : List SyncStore.Ev) (ev : SyncStore.Ev) (c : Nat)
+    (h : (SyncStore.run true store n evs).cache = some c) :
+    ∃ c', (SyncStore.run true store n (evs ++ [ev])).cache = some c' ∧ c ≤ c' := by
+  have : SyncStore.run true store n (evs ++ [ev]) = SyncStore.step true (SyncStore.run true store n evs) ev := by
+    simp [SyncStore.run, List.foldl_append]
+  rw [this]; exact c19_cached_head_never_decreases _ ev c h
+
+/-- the F43 schedule: reader 0 reads store head 20 and is paused; the adjacent header 21 is appended; reader 1 gets 21; reader 0
+    publishes; reader 1 asks again. Before the repair: 21, then 20, 20 … -/
+theorem c19_cached_head_regresses_before_repair :
+    (SyncStore.run false 20 2 [.head 0, .append, .head 1, .head 0, .head 1]).results = [21, 20, 20] := by decide
+
+/-- … after it: 21, 21, 21 -/
+theorem c19_cached_head_f43_repaired :
+    (SyncStore.run true 20 2 [.head 0, .append, .head 1, .head 0, .head 1]).results = [21, 21, 21] := by decide
 
 end GoHeader.C19Subjective
